@@ -1,0 +1,51 @@
+//go:build verif
+
+package kernel
+
+import (
+	"github.com/MixinNetwork/mixin/common"
+	"github.com/MixinNetwork/mixin/crypto"
+	"github.com/MixinNetwork/mixin/storage"
+)
+
+// Verification hooks for property C25 (mint schedule and distribution).
+// Thin exported wrappers around unexported functions; compiled only with -tags verif.
+
+func VerifMintBatchSize(batch uint64) common.Integer { return mintBatchSize(batch) }
+
+func VerifMintMultiBatchesSize(old, batch uint64) common.Integer {
+	return mintMultiBatchesSize(old, batch)
+}
+
+func VerifPoolSizeUniversal(batch int) common.Integer { return poolSizeUniversal(batch) }
+
+// VerifC25NewNode builds a Node around a store and an already sorted node-state history
+// (the assignments LoadConsensusNodes makes), without starting any loop.
+func VerifC25NewNode(networkId crypto.Hash, epoch uint64, sorted []*CNode, genesis []crypto.Hash, store storage.Store) *Node {
+	node := &Node{
+		Epoch:           epoch,
+		networkId:       networkId,
+		persistStore:    store,
+		genesisNodesMap: make(map[crypto.Hash]bool),
+		genesisNodes:    genesis,
+	}
+	for _, id := range genesis {
+		node.genesisNodesMap[id] = true
+	}
+	node.allNodesSortedWithState = sorted
+	node.nodeStateSequences = node.buildNodeStateSequences(sorted, false)
+	node.acceptedNodeStateSequences = node.buildNodeStateSequences(sorted, true)
+	return node
+}
+
+func (node *Node) VerifDistributeKernelMintByWorks(accepted []*CNode, base common.Integer, timestamp uint64) ([]*CNodeWork, error) {
+	return node.distributeKernelMintByWorks(accepted, base, timestamp)
+}
+
+func (node *Node) VerifBuildUniversalMintTransaction(custodianRequest *common.CustodianUpdateRequest, timestamp uint64, validateOnly bool) *common.VersionedTransaction {
+	return node.buildUniversalMintTransaction(custodianRequest, timestamp, validateOnly)
+}
+
+func (node *Node) VerifCheckUniversalMintPossibility(timestamp uint64, validateOnly bool) (uint64, common.Integer) {
+	return node.checkUniversalMintPossibility(timestamp, validateOnly)
+}
